@@ -5,6 +5,8 @@ Statements quantify over every line / text (`List Char`), every configuration da
 -/
 import MesonModel.Template.Lemmas
 import MesonModel.Template.CmakeSegs
+import MesonModel.Template.DispatchLemmas
+import MesonModel.Template.CmakeTop
 
 namespace MesonModel.Props.C14
 open MesonModel.Template MesonModel.Py
@@ -376,6 +378,149 @@ example : substCmake false [(['A'], .str []), (['B'], .str "bee".toList)] 100 "$
 example : substCmake false [(['B'], .str "bee".toList)] 100 "${A}${B}".toList
     = .ok ("bee".toList, [['A']]) := by decide
 
+/-! #### the cmake formats without carve-out
+
+`cmakeTop atOnly fuel line` is the *top-level* segmentation (literal character / `@name@` / `${inner}` up to the
+matching brace / a position where the scanner raises); it takes no data, also for nested references.  `runTop`
+renders it left to right: a literal is copied, a placeholder contributes the value of its name, and the name of a
+`${inner}` segment is whatever the same scanner makes of `inner` (the documented `${${X}}`). -/
+
+/-- **`cmake_one_pass_all_lines`**: for every line, every data and every fuel the scanner *is* the left-to-right
+rendering of the data-independent top-level segmentation — no hypothesis, nested `${${X}}` included -/
+theorem cmake_one_pass_all_lines (atOnly : Bool) (d : Data) (fuel : Nat) (line : List Char) :
+    substCmake atOnly d fuel line = runTop atOnly d fuel (cmakeTop atOnly fuel line) [] [] :=
+  parseLine_eq_runTop atOnly d fuel [] line []
+
+/-- the top-level segments partition the line (when the scanner reaches its end), and with `length + 1` fuel
+the fuel never runs out: nothing is lost, duplicated or reordered -/
+theorem cmake_top_partition (atOnly : Bool) (fuel : Nat) (line : List Char)
+    (h : ∀ e, TSeg.bad e ∉ cmakeTop atOnly fuel line) : (cmakeTop atOnly fuel line).flatMap TSeg.src = line :=
+  cmakeTop_partition atOnly fuel line h
+
+theorem cmake_top_fuel_suffices (atOnly : Bool) (fuel : Nat) (line : List Char) (hf : line.length < fuel) :
+    TSeg.bad .fuel ∉ cmakeTop atOnly fuel line :=
+  cmakeTop_fuel atOnly fuel line hf
+
+/-- **every byte outside a placeholder is copied, and what has been written is never read again** (all lines,
+all data): rendering the segments after an arbitrary output-so-far `pre` is `pre` followed by the rendering from
+scratch — so neither a literal character nor a substituted value can influence what follows it -/
+theorem cmake_output_never_reread (atOnly : Bool) (d : Data) (fuel : Nat) (segs : List TSeg) (pre : List Char)
+    (m : List Name) :
+    runTop atOnly d fuel segs pre m =
+      (runTop atOnly d fuel segs [] m).map fun (t, mm) => (pre.reverse ++ t, mm) :=
+  runTop_pre atOnly d fuel segs pre m
+
+/-- one rendering step per segment kind: a literal is copied; `@name@` contributes exactly the value text and a
+report iff undefined; `${inner}` contributes the value of the name computed from `inner` -/
+theorem cmake_render_steps (atOnly : Bool) (d : Data) (f : Nat) (t : List TSeg) (pre : List Char) (m : List Name) :
+    (∀ c, runTop atOnly d (f + 1) (.lit c :: t) pre m = runTop atOnly d f t (c :: pre) m) ∧
+    (∀ nm, runTop atOnly d (f + 1) (.atVar nm :: t) pre m =
+      runTop atOnly d f t ((varVal d nm).reverse ++ pre) (varMiss d nm ++ m)) ∧
+    (∀ inner nm m1, parseLine atOnly d f [] inner m = .ok (nm, m1) → (∀ c ∈ nm, isCmakeChar c = true) →
+      runTop atOnly d (f + 1) (.brace inner :: t) pre m =
+        runTop atOnly d f t ((varVal d nm).reverse ++ pre) (varMiss d nm ++ m1)) := by
+  refine ⟨fun c => rfl, fun nm => rfl, fun inner nm m1 h hn => ?_⟩
+  simp [runTop, h, any_not_cmake_false hn]
+
+example : cmakeTop false 30 "a${${X}}@Y@".toList = [.lit 'a', .brace "${X}".toList, .atVar ['Y']] := by decide
+example : substCmake false [(['X'], .str ['Z']), (['Z'], .str "v${X}".toList)] 30 "a${${X}}@Y@".toList
+    = .ok ("av${X}".toList, [['Y']]) := by decide
+
+/-- **the self-referential case**: `${A}` where the value of `A` mentions `${A}` again (or anything else) yields
+the value once, verbatim, with `length + 1` fuel — for every name, value and further data.  (Before repair
+e7f602b the scanner resumed inside the substituted text and never returned on this input.) -/
+theorem cmake_self_reference_one_pass (nm v : List Char) (rest : Data) (fuel : Nat)
+    (hn : ∀ c ∈ nm, isCmakeChar c = true) (hf : nm.length + 4 ≤ fuel) :
+    substCmake false ((nm, .str v) :: rest) fuel ('$' :: '{' :: (nm ++ ['}'])) = .ok (v, []) := by
+  obtain ⟨g, rfl⟩ : ∃ g, fuel = g + 1 + 1 := ⟨fuel - 2, by omega⟩
+  unfold substCmake
+  rw [parseLine_var_step _ (g + 1) [] nm [] [] hn (by omega), varGet_eq]
+  simp [parseLine, varVal, varMiss, Data.get?, List.lookup, Val.cmakeStr]
+
+example : substCmake false [(['A'], .str "x${A}${${A}}@A@".toList)] 5 "${A}".toList
+    = .ok ("x${A}${${A}}@A@".toList, []) := by decide
+
+/-- the same for `@A@` in both cmake formats -/
+theorem cmake_self_reference_at_one_pass (atOnly : Bool) (nm v : List Char) (rest : Data) (fuel : Nat)
+    (hne : nm ≠ []) (hn : ∀ c ∈ nm, isCmakeChar c = true) (hf : 2 ≤ fuel) :
+    substCmake atOnly ((nm, .str v) :: rest) fuel ('@' :: (nm ++ ['@'])) = .ok (v, []) := by
+  obtain ⟨g, rfl⟩ : ∃ g, fuel = g + 1 + 1 := ⟨fuel - 2, by omega⟩
+  unfold substCmake
+  rw [parseLine_at_step atOnly _ (g + 1) [] nm [] [] hne hn, varGet_eq]
+  simp [parseLine, varVal, varMiss, Data.get?, List.lookup, Val.cmakeStr]
+
+/-! #### `#cmakedefine` / `#cmakedefine01` : the rendering for every value kind -/
+
+/-- truthiness as `do_define_cmake` uses it (`not v`, `bool(v)`): a string is true iff non-empty, an integer iff
+non-zero, a boolean is itself -/
+theorem cmake_truthiness (s : List Char) (i : Int) (b : Bool) :
+    (Val.str s).truthy = !s.isEmpty ∧ (Val.int i).truthy = (i != 0) ∧ (Val.bool b).truthy = b :=
+  ⟨rfl, rfl, rfl⟩
+
+/-- **the `#cmakedefine` table**.  `nm` is the second token of the directive (`t0` the directive word, `extra` the
+remaining tokens), `is01` = the line says `cmakedefine01`.
+ * undefined: `/* #undef NAME */`, resp. `#define NAME 0` for `cmakedefine01`;
+ * defined but false (`''`, `0`, `false`): `/* #undef NAME */`;
+ * `cmakedefine01`, defined: `#define NAME 1` / `#define NAME 0` by truthiness — for str, int and bool alike;
+ * true value, no further tokens: `#define NAME`;
+ * true value with further tokens: `#define NAME <tokens, a token that is a key replaced by str(value)>`, blanks
+   normalised, then ONE replacement pass of the format (so `cmake_one_pass_all_lines` applies to it). -/
+theorem cmakedefine_table (atOnly : Bool) (d : Data) (fuel : Nat) (line t0 nm : List Char)
+    (extra : List (List Char)) (h : splitWs ((lstrip line).drop 1) = t0 :: nm :: extra) :
+    (d.get? nm = none → hasSub sCmakedefine01 line = false →
+      defineCmake atOnly d fuel line = .ok (sUndefOpen ++ nm ++ sUndefClose)) ∧
+    (d.get? nm = none → hasSub sCmakedefine01 line = true →
+      defineCmake atOnly d fuel line = .ok (sDefine ++ nm ++ " 0\n".toList)) ∧
+    (∀ v, d.get? nm = some v → v.truthy = false → hasSub sCmakedefine01 line = false →
+      defineCmake atOnly d fuel line = .ok (sUndefOpen ++ nm ++ sUndefClose)) ∧
+    (∀ v, d.get? nm = some v → hasSub sCmakedefine01 line = true → '@' ∉ nm → '$' ∉ nm → nm.length + 12 ≤ fuel →
+      defineCmake atOnly d fuel line = .ok (sDefine ++ nm ++ [' ', if v.truthy then '1' else '0', '\n'])) ∧
+    (∀ v nm0 z, d.get? nm = some v → v.truthy = true → hasSub sCmakedefine01 line = false → extra = [] →
+      nm = nm0 ++ [z] → isSpace z = false → '@' ∉ nm → '$' ∉ nm → nm.length + 12 ≤ fuel →
+      defineCmake atOnly d fuel line = .ok (sDefine ++ nm ++ ['\n'])) ∧
+    (∀ v, d.get? nm = some v → v.truthy = true → hasSub sCmakedefine01 line = false →
+      defineCmake atOnly d fuel line =
+        (substCmake atOnly d fuel (strip (sDefine ++ nm ++ ' ' :: joinSp (extra.map fun tok =>
+          match d.get? tok with
+          | some w => w.pyStr
+          | none => tok)) ++ ['\n'])).map (·.1)) := by
+  have h' : splitWs (lstrip line).tail = t0 :: nm :: extra := by simpa using h
+  refine ⟨?_, ?_, ?_, ?_, ?_, ?_⟩
+  · intro hv hb; simp [defineCmake, h', hv, hb]
+  · intro hv hb; simp [defineCmake, h', hv, hb]
+  · intro v hv ht hb; simp [defineCmake, h', hv, hb, ht]
+  · intro v hv hb h1 h2 hf
+    simp only [defineCmake, h, hv, hb, Bool.not_true, Bool.false_and, Bool.false_eq_true, if_false, if_true]
+    cases ht : v.truthy
+    · simpa using define_bit_text atOnly d fuel nm '0' (Or.inr rfl) h1 h2 hf
+    · simpa using define_bit_text atOnly d fuel nm '1' (Or.inl rfl) h1 h2 hf
+  · intro v nm0 z hv ht hb he hnm hz h1 h2 hf
+    subst hnm
+    simp only [defineCmake, h, hv, hb, ht, he, Bool.not_false, Bool.not_true, Bool.and_false, Bool.false_eq_true,
+      if_false, List.map_nil, joinSp]
+    exact define_bare_text atOnly d fuel nm0 z hz h1 h2 hf
+  · intro v hv ht hb
+    simp only [defineCmake, h, hv, hb, ht, Bool.not_false, Bool.not_true, Bool.and_false, Bool.false_eq_true, if_false]
+    rfl
+
+example : splitWs ((lstrip "  # cmakedefine01 FOO \n".toList).drop 1) = ["cmakedefine01".toList, "FOO".toList] ∧
+    hasSub sCmakedefine01 "  # cmakedefine01 FOO \n".toList = true := by decide
+
+example : defineCmake false [("FOO".toList, .str "0".toList)] 100 "#cmakedefine01 FOO\n".toList
+    = .ok "#define FOO 1\n".toList := by decide
+example : defineCmake false [("FOO".toList, .int 0)] 100 "#cmakedefine01 FOO\n".toList
+    = .ok "#define FOO 0\n".toList := by decide
+example : defineCmake false [("VAR".toList, .str "value".toList)] 100 "#cmakedefine VAR x ${VAR} VAR".toList
+    = .ok "#define VAR x value value\n".toList := by decide
+
+/-- a directive without a name is an error (`IndexError` in the implementation), never a silent copy -/
+theorem cmakedefine_needs_name (atOnly : Bool) (d : Data) (fuel : Nat) (line : List Char)
+    (h : (splitWs ((lstrip line).drop 1)).length < 2) : defineCmake atOnly d fuel line = .error .indexError := by
+  unfold defineCmake
+  split
+  · rename_i heq; rw [heq] at h; simp at h; omega
+  · rfl
+
 /-! ### the file layer over bytes: `do_conf_file(src, dst, data, format, encoding)`
 
 `confFileBytes c` decodes the input bytes with the codec `c`, substitutes, and encodes the result with the
@@ -503,5 +648,219 @@ theorem header_order_canonical (es es' : List Entry) (hp : es.Perm es') (hnd : (
 
 example : (sortEntries [⟨"b".toList, .bool true, none⟩, ⟨"B".toList, .int 1, none⟩, ⟨"a10".toList, .str [], none⟩,
     ⟨"a2".toList, .bool false, none⟩]).map (·.key) = ["B".toList, "a10".toList, "a2".toList, "b".toList] := by decide
+
+/-! ### the call site: action dispatch of `configure_file()`
+
+`cfRun c fuel a` models `Interpreter.func_configure_file` for the keyword set `a` (`Template/Dispatch.lean`): the
+count `kwargs[x] not in [None, False]` and the branch chain `… is not None / … is not None / kwargs['copy']` are
+modelled separately; the theorems below say that they agree and that the *presence* of `configuration:` — not the
+content of the data — selects template processing. -/
+
+/-- **exactly one action**: zero, two or three of `configuration` / `command` / `copy` are an error; a call that
+succeeds had exactly one of them, and the branch that ran is that one -/
+theorem cf_exactly_one_action (c : Codec) (fuel : Nat) (a : CfArgs) :
+    ((presentActions a).length = 0 → cfRun c fuel a = .error .noAction) ∧
+    ((presentActions a).length = 2 → ∃ x y, cfRun c fuel a = .error (.twoActions x y)) ∧
+    ((presentActions a).length = 3 → cfRun c fuel a = .error .threeActions) ∧
+    (∀ o, cfRun c fuel a = .ok o → presentActions a = [o.action]) := by
+  refine ⟨?_, ?_, ?_, ?_⟩
+  · intro h
+    have : presentActions a = [] := List.eq_nil_of_length_eq_zero h
+    simp [cfRun, this]
+  · intro h
+    match hp : presentActions a, h with
+    | [x, y], _ => exact ⟨x, y, by simp [cfRun, hp]⟩
+  · intro h
+    match hp : presentActions a, h with
+    | [x, y, z], _ => simp [cfRun, hp]
+  · intro o ho
+    unfold cfRun at ho
+    split at ho
+    · cases ho
+    · rename_i x hp
+      split at ho
+      · cases ho
+      · -- one action present: which one is decided by the three flags
+        unfold presentActions at hp
+        unfold cfBranch at ho
+        cases hc : a.configuration.entries? with
+        | some es =>
+          simp only [hc, Option.isSome_some, if_true] at hp ho
+          have hcmd : a.command = false := by
+            cases h : a.command <;> simp_all
+          have hcopy : a.copy = false := by
+            cases h : a.copy <;> simp_all
+          split at ho
+          · cases ho
+          · split at ho
+            · split at ho
+              · cases ho
+              · cases ho; simp [presentActions, hc, hcmd, hcopy]
+            · cases ho; simp [presentActions, hc, hcmd, hcopy]
+        | none =>
+          simp only [hc, Option.isSome_none, Bool.false_eq_true, if_false, List.append_nil] at hp ho
+          cases hcmd : a.command with
+          | true =>
+            have hcopy : a.copy = false := by
+              cases h : a.copy <;> simp_all
+            simp only [hcmd, if_true] at ho
+            split at ho
+            · split at ho
+              · cases ho; simp [presentActions, hc, hcmd, hcopy]
+              · cases ho
+            · cases ho; simp [presentActions, hc, hcmd, hcopy]
+          | false =>
+            simp only [hcmd, Bool.false_eq_true, if_false, List.nil_append] at hp ho
+            cases hcopy : a.copy with
+            | true =>
+              simp only [hcopy, if_true] at ho
+              split at ho
+              · cases ho; simp [presentActions, hc, hcmd, hcopy]
+              · cases ho
+            | false => simp [hcopy] at hp
+    · cases ho
+    · cases ho
+
+/-- `capture: true` needs `command:` — in every other mode the call is an error, nothing is written -/
+theorem cf_capture_requires_command (c : Codec) (fuel : Nat) (a : CfArgs) (hcap : a.capture = true)
+    (hcmd : a.command = false) : ∀ o, cfRun c fuel a ≠ .ok o := by
+  intro o ho
+  unfold cfRun at ho
+  split at ho <;> first | cases ho | skip
+  simp [hcap, hcmd] at ho
+
+/-- **`configuration:` present — with any data, the empty one included — ⇒ the template is processed**: the
+result of the call is exactly `do_conf_file` on the input bytes with that data (substituted bytes in the codec of
+`encoding:`, the undefined names, the useless-data flag) and the data object is marked used.  No hypothesis on
+`es`: an empty dict and an unpopulated `configuration_data()` take the same path as any other data. -/
+theorem cf_configuration_processes_template (c : Codec) (fuel : Nat) (a : CfArgs) (es : List Entry) (src : Bytes)
+    (hconf : a.configuration.entries? = some es) (hcmd : a.command = false) (hcopy : a.copy = false)
+    (hcap : a.capture = false) (hin : a.inputs = [src]) :
+    cfRun c fuel a =
+      match confFileFull c a.format (dataOf es) fuel src with
+      | .error e => .error (.file e)
+      | .ok (b, miss, useless) => .ok ⟨.configuration, .bytes b, miss, useless, true⟩ := by
+  rw [cfRun_single c fuel a _ (presentActions_conf a es hconf hcmd hcopy)]
+  simp only [hcap, hcmd, Bool.false_and, Bool.false_eq_true, if_false, cfBranch, hconf, hin, List.length_singleton,
+    Nat.lt_irrefl, gt_iff_lt]
+  cases confFileFull c a.format (dataOf es) fuel src with
+  | error e => rfl
+  | ok r => obtain ⟨b, miss, u⟩ := r; rfl
+
+/-- `confFileFull` writes the bytes `confFileBytes` writes -/
+theorem confFileFull_bytes (c : Codec) (fmt : Format) (d : Data) (fuel : Nat) (src : Bytes) :
+    (confFileFull c fmt d fuel src).map (·.1) = confFileBytes c fmt d fuel src := by
+  unfold confFileFull confFileBytes
+  cases c.decode src with
+  | none => rfl
+  | some text =>
+    simp only
+    cases confFile fmt d fuel text with
+    | error e => rfl
+    | ok r =>
+      obtain ⟨out, miss, u⟩ := r
+      simp only
+      cases c.encode out <;> rfl
+
+/-- **empty data still substitutes and reports** (meson format, text without `#`): with `configuration: {}` or an
+unpopulated `configuration_data()` every line is rewritten by the one-pass substitution — each `@name@` replaced by
+the empty text, escapes resolved, everything else copied — and a name is reported **iff** it is a substituted
+placeholder of some line -/
+theorem cf_empty_configuration_meson (c : Codec) (fuel : Nat) (a : CfArgs) (src : Bytes) (text : List Char)
+    (hconf : a.configuration = .dict [] ∨ a.configuration = .cdata []) (hcmd : a.command = false)
+    (hcopy : a.copy = false) (hcap : a.capture = false) (hin : a.inputs = [src]) (hfmt : a.format = .meson)
+    (hd : c.decode src = some text) (hh : '#' ∉ text) (b : Bytes)
+    (he : c.encode ((splitLines text).flatMap (substMeson [])) = some b) :
+    ∃ o, cfRun c fuel a = .ok o ∧ o.action = .configuration ∧ o.out = .bytes b ∧ o.used = true ∧
+      ∀ nm, nm ∈ o.missing ↔ ∃ l ∈ splitLines text, Seg.var nm ∈ segments l := by
+  have hes : a.configuration.entries? = some [] := by
+    rcases hconf with h | h <;> simp [h, ConfKw.entries?]
+  rw [cf_configuration_processes_template c fuel a [] src hes hcmd hcopy hcap hin]
+  simp only [confFileFull, hd, hfmt, dataOf, List.map_nil, confFile_meson_nohash [] fuel text hh, he]
+  refine ⟨_, rfl, rfl, rfl, rfl, fun nm => ?_⟩
+  simp only [List.mem_flatMap]
+  constructor
+  · rintro ⟨l, hl, hm⟩
+    exact ⟨l, hl, ((missing_iff [] l nm).mp hm).1⟩
+  · rintro ⟨l, hl, hm⟩
+    exact ⟨l, hl, (missing_iff [] l nm).mpr ⟨hm, rfl⟩⟩
+
+example : (splitLines "n=[@NAME@] \\@X\\@\r\n@OTHER@".toList).flatMap (substMeson []) = "n=[] @X@\r\n".toList ∧
+    (splitLines "n=[@NAME@] \\@X\\@\r\n@OTHER@".toList).flatMap (missingMeson []) = ["NAME".toList, "OTHER".toList] := by
+  decide
+
+/-- **`configuration:` without `input:` generates the header** — for every data, the empty one included: the file
+is `_dump_c_header` (c, nasm) resp. the key-sorted JSON object of exactly the entries (`header_keys_sorted_once`
+says what that header defines) -/
+theorem cf_configuration_without_input_generates_header (c : Codec) (fuel : Nat) (a : CfArgs) (es : List Entry)
+    (hconf : a.configuration.entries? = some es) (hcmd : a.command = false) (hcopy : a.copy = false)
+    (hcap : a.capture = false) (hin : a.inputs = []) :
+    cfRun c fuel a = .ok ⟨.configuration, headerFile a.outputFormat a.macroName es, [], false, true⟩ := by
+  rw [cfRun_single c fuel a _ (presentActions_conf a es hconf hcmd hcopy)]
+  simp [hcap, cfBranch, hconf, hin]
+
+example : headerFile .c none [] = .bytes ((String.ofList (hdrPrelude .c none)).toUTF8.toList) := by
+  simp [headerFile, dumpHeader, sortEntries, hdrEpilogue]
+
+/-- a dict and a `configuration_data()` object with the same entries are processed alike -/
+theorem cf_dict_same_as_object (c : Codec) (fuel : Nat) (a : CfArgs) (es : List Entry)
+    (hd : ∀ e ∈ es, e.desc = none) :
+    cfRun c fuel { a with configuration := .dict es } = cfRun c fuel { a with configuration := .cdata es } := by
+  have : (es.map fun e => (⟨e.key, e.val, none⟩ : Entry)) = es := by
+    induction es with
+    | nil => rfl
+    | cons e t ih =>
+      have h1 := hd e (by simp)
+      rw [List.map_cons, ih (fun x hx => hd x (List.mem_cons_of_mem _ hx))]
+      cases e; simp_all
+  simp [cfRun, presentActions, cfBranch, ConfKw.entries?, this]
+
+/-- `copy: true` reproduces the input byte for byte -/
+theorem cf_copy_copies_bytes (c : Codec) (fuel : Nat) (a : CfArgs) (src : Bytes)
+    (hconf : a.configuration = .absent) (hcmd : a.command = false) (hcopy : a.copy = true)
+    (hcap : a.capture = false) (hin : a.inputs = [src]) :
+    cfRun c fuel a = .ok ⟨.copy, .bytes src, [], false, false⟩ := by
+  simp [cfRun, presentActions, cfBranch, hconf, ConfKw.entries?, hcmd, hcopy, hcap, hin]
+
+/-- **a successful call in configuration or copy mode has written the output file** (only a `command:` without
+`capture:` leaves the writing to the command): the fall-through of the branch chain is unreachable -/
+theorem cf_success_writes_output (c : Codec) (fuel : Nat) (a : CfArgs) (o : CfOut)
+    (h : cfRun c fuel a = .ok o) (hm : o.action ≠ .command) : o.out ≠ .untouched := by
+  have hone := (cf_exactly_one_action c fuel a).2.2.2 o h
+  rw [cfRun_single c fuel a _ hone] at h
+  split at h
+  · cases h
+  · unfold cfBranch at h
+    unfold presentActions at hone
+    cases hc : a.configuration.entries? with
+    | some es =>
+      simp only [hc] at h
+      split at h
+      · cases h
+      · split at h
+        · split at h
+          · cases h
+          · cases h; simp
+        · cases h
+          cases a.outputFormat <;> simp [headerFile]
+    | none =>
+      simp only [hc] at h
+      cases hcmd : a.command with
+      | true =>
+        simp only [hcmd, if_true] at h
+        split at h
+        · split at h
+          · cases h; simp
+          · cases h
+        · cases h; exact absurd rfl hm
+      | false =>
+        simp only [hcmd, Bool.false_eq_true, if_false] at h
+        cases hcopy : a.copy with
+        | true =>
+          simp only [hcopy, if_true] at h
+          split at h
+          · cases h; simp
+          · cases h
+        | false => simp [hc, hcmd, hcopy] at hone
 
 end MesonModel.Props.C14
